@@ -11,6 +11,7 @@ import (
 	"net/http"
 	"strings"
 	"sync/atomic"
+	"time"
 
 	"github.com/AdguardTeam/urlfilter"
 	"github.com/AdguardTeam/urlfilter/filterlist"
@@ -252,6 +253,7 @@ var defects = []defect{{
 		var miss, compile int32
 		g1AtMiss, g1Go := make(chan struct{}), make(chan struct{})
 		g2AtCompile, g2Go := make(chan struct{}), make(chan struct{})
+		g1Stored := make(chan struct{})
 		filterlist.VerifYieldHook = func(point int) {
 			if point == 1 && atomic.AddInt32(&miss, 1) == 1 {
 				close(g1AtMiss) // goroutine 1 missed the cache: hold it before it reads the list
@@ -259,9 +261,12 @@ var defects = []defect{{
 			}
 		}
 		rules.VerifYieldHook = func(point int) {
-			if point == 4 && atomic.AddInt32(&compile, 1) == 1 {
+			switch atomic.AddInt32(&compile, 1) {
+			case 1:
 				close(g2AtCompile) // goroutine 2 holds its own object and is about to match it
 				<-g2Go
+			case 2:
+				close(g1Stored) // goroutine 1 stored ITS object and is matching it
 			}
 		}
 		defer func() { filterlist.VerifYieldHook, rules.VerifYieldHook = nil, nil }()
@@ -272,9 +277,13 @@ var defects = []defect{{
 		<-g1AtMiss
 		go func() { n2 = len(e.MatchAll(q())); close(done2) }()
 		<-g2AtCompile
-		close(g1Go) // goroutine 1 parses its own object and overwrites the cache entry
+		close(g1Go) // goroutine 1 parses its own object and stores it
+		select {
+		case <-g1Stored: // (old code) the cache entry now is goroutine 1's object
+		case <-time.After(300 * time.Millisecond): // (repaired code) goroutine 1 waits for the shared object
+		}
+		close(g2Go) // goroutine 2 continues: its second lookup hits whatever the cache holds now
 		<-done1
-		close(g2Go) // goroutine 2 continues: its second lookup now hits the other object
 		<-done2
 
 		return n1 == seq && n2 == seq, fmt.Sprintf("sequential=%d concurrent=%d,%d rules", seq, n1, n2)
